@@ -42,6 +42,9 @@ class Result:
         Floors measured on the pinned tree live in tables/floors.json
         (rule -> what -> config); the inline value is the fallback."""
         self.info[what] = got
+        if not hasattr(self, "floor_keys"):
+            self.floor_keys = set()
+        self.floor_keys.add(what)
         t = _floors().get(self.rule, {}).get(what, {})
         if self.cfg in t:
             floor = t[self.cfg]
@@ -49,6 +52,8 @@ class Result:
             floor = floor.get(self.cfg)
         if floor is None:
             floor = 1
+        if os.environ.get("HBV_MEASURING"):
+            return
         if got < floor:
             self.undec("%s: found %d, expected at least %d (anchor lost or code restructured beyond what the rule recognises)" % (what, got, floor))
 
